@@ -156,6 +156,8 @@ class Values(object):
             if n >= 2 and rng.random() < 0.35:
                 k = rng.randint(1, n - 1)
                 s = s[:k] + '.' + s[k:]
+            elif rng.random() < 0.08:
+                s = '.' + s                  # no integer part
             if self.rich and rng.random() < 0.15:
                 s = '-' + s
             return s
@@ -374,6 +376,10 @@ class Gen(object):
         self.lx = 0
         self.shadow = {}
         self.notused_filled = 0
+        self.interleave = False
+        self.force_xyx = False
+        self.interleaved = 0
+        self.xyx = 0
 
     def count_for(self, node):
         mx = node.max_repeat()
@@ -513,13 +519,81 @@ class Gen(object):
                     is_hl = True
                     self.hl_stack.append(self.hl)
             try:
-                for child in loop.children[start:]:
-                    self.gen_child(child)
+                self.gen_children(loop.children[start:])
             finally:
                 if is_hl:
                     self.hl_stack.pop()
         finally:
             self.chain.pop()
+
+    def gen_children(self, children):
+        """children in map order; with self.interleave, instances of loops that share one map position (siblings the map does
+        not order, e.g. 837 2420A-2420G) are emitted in a shuffled, interleaved order"""
+        if not self.interleave:
+            for child in children:
+                self.gen_child(child)
+            return
+        i = 0
+        while i < len(children):
+            j = i
+            while j < len(children) and children[j].pos == children[i].pos:
+                j += 1
+            group = children[i:j]
+            loops = [c for c in group if c.kind == 'loop' and c.type != 'wrapper' and c.first_seg() is not None and c.first_seg().id not in ('HL', 'LX')]
+            if len(loops) >= 2 and len(loops) == len(group):
+                head, rest = [], []
+                for c in loops:
+                    n = self.count_for(c)
+                    inst = [(c, k) for k in range(n)]
+                    if c.usage == 'R' and inst:
+                        head.append(inst.pop(0))    # the validator wants every required sibling before it lets later ones pass
+                    rest += inst
+                self.rng.shuffle(rest)
+                order = head + rest
+                if self.force_xyx:
+                    # X, Y, X: a repeatable loop with a required non-first segment, interrupted by a sibling of the same position
+                    xs = [c for c in loops if c.usage != 'N' and c.max_repeat() >= 2 and any(s.kind == 'seg' and s.usage == 'R' for s in c.children[1:])]
+                    ys = [c for c in loops if c.usage != 'N']
+                    if xs:
+                        x = self.rng.choice(xs)
+                        others = [c for c in ys if c is not x and (c.usage != 'R' or c.max_repeat() >= 2)]
+                        if others:
+                            y = self.rng.choice(others)
+                            tail = [(c, k) for (c, k) in rest if c is not x and c is not y]
+                            # required siblings first (the validator insists), then what is left of the pattern, each instance once
+                            pat = [(x, 0), (y, 1 if (y, 0) in head else 0), (x, 1)]
+                            order = head + [o for o in pat if o not in head] + tail
+                            self.xyx += 1
+                done = {}
+                dead = set()
+                for (c, k) in order:
+                    if id(c) in dead:
+                        continue
+                    first = id(c) not in done
+                    done[id(c)] = True
+                    if not self.gen_instance(c, first):
+                        dead.add(id(c))
+                self.interleaved += 1 if len(set(id(c) for c, k in order)) > 1 else 0
+            else:
+                for child in group:
+                    self.gen_child(child)
+            i = j
+
+    def gen_instance(self, child, first):
+        """one instance; False when it had to be dropped because it is shadowed"""
+        mark = (len(self.out), self.hl, list(self.hl_stack), self.lx, list(self.chain), self.inst)
+        try:
+            if child.kind == 'seg':
+                self.gen_seg(child)
+            else:
+                self.gen_loop(child)
+            return True
+        except Shadowed:
+            del self.out[mark[0]:]
+            self.hl, self.hl_stack, self.lx, self.chain = mark[1], mark[2], mark[3], mark[4]
+            if child.usage == 'R' and first:
+                raise
+            return False
 
     def gen_child(self, child):
         n = self.count_for(child)
@@ -558,23 +632,25 @@ def index_entries(versions=('00401', '00501')):
 
 
 def gen_document(entry, seed, fill=0.5, maxrep=2, opt_prob=0.5, charset='B', rich=False, n_isa=1, n_gs=1, n_st=None,
-                 fill_notused=0.0, forbid='~*:^', sender='SENDERID', receiver='RECEIVERID', same_parties=True, tries=12):
+                 fill_notused=0.0, forbid='~*:^', sender='SENDERID', receiver='RECEIVERID', same_parties=True, tries=12, interleave=False, force_xyx=False):
     """entry: dict(icvn, vriic, fic, tspc, file).  Retries with derived seeds when a required node is shadowed."""
     last = None
     for t in range(tries):
         rng = random.Random((seed, t).__hash__() if False else seed * 1000 + t)
         try:
-            return _gen_document(entry, rng, fill, maxrep, opt_prob, charset, rich, n_isa, n_gs, n_st, fill_notused, forbid, sender, receiver, (seed, t))
+            return _gen_document(entry, rng, fill, maxrep, opt_prob, charset, rich, n_isa, n_gs, n_st, fill_notused, forbid, sender, receiver, (seed, t), interleave, force_xyx)
         except Shadowed as ex:
             last = ex
             continue
     raise GenFailed('required node shadowed in every attempt: %s' % last)
 
 
-def _gen_document(entry, rng, fill, maxrep, opt_prob, charset, rich, n_isa, n_gs, n_st, fill_notused, forbid, sender, receiver, seedinfo):
+def _gen_document(entry, rng, fill, maxrep, opt_prob, charset, rich, n_isa, n_gs, n_st, fill_notused, forbid, sender, receiver, seedinfo, interleave=False, force_xyx=False):
     root = load_map(entry['file'])
     V = Values(rng, charset, rich, forbid)
     g = Gen(root, rng, V, fill, maxrep, opt_prob, fill_notused)
+    g.interleave = interleave or force_xyx
+    g.force_xyx = force_xyx
     doc = Doc()
     doc.entry = entry
     doc.mapfile = entry['file']
@@ -632,11 +708,13 @@ def _gen_document(entry, rng, fill, maxrep, opt_prob, charset, rich, n_isa, n_gs
                 stv[1] = stctl
                 g.out.append(Rec(st, stv, list(g.chain)))
                 se = None
+                rest = []
                 for child in st_loop.children[1:]:
                     if child.kind == 'seg' and child.id == 'SE':
                         se = child
                         continue
-                    g.gen_child(child)
+                    rest.append(child)
+                g.gen_children(rest)
                 if se is None:
                     for j in range(len(g.out) - 1, start, -1):
                         if g.out[j].node.id == 'SE':
@@ -651,5 +729,5 @@ def _gen_document(entry, rng, fill, maxrep, opt_prob, charset, rich, n_isa, n_gs
     doc.recs = g.out
     doc.shadowed = dict(g.shadow)
     doc.meta = {'seed': seedinfo, 'fill': fill, 'maxrep': maxrep, 'opt_prob': opt_prob, 'charset': charset, 'rich': rich,
-                'n_isa': n_isa, 'n_gs': n_gs, 'n_st': n_st, 'notused_filled': g.notused_filled, 'map': entry['file']}
+                'n_isa': n_isa, 'n_gs': n_gs, 'n_st': n_st, 'notused_filled': g.notused_filled, 'map': entry['file'], 'interleaved_groups': g.interleaved, 'xyx_groups': g.xyx}
     return doc
